@@ -23,6 +23,12 @@
  *   drain                                extract until no command is returned
  *   finish                               until the socket queue is empty: read, drain  (bounded)
  *   line <hex>                           console: add_console_line() with these bytes (+ NUL)
+ *   getchar [noecho]                     the user object calls get_char("gc_cb", [I_NOECHO]): real get_char() -> set_call()
+ *                                        (SINGLE_CHAR on, telnet option messages, CMD_IN_BUF for typed-ahead characters)
+ *   inputto [noecho]                     the user object calls input_to("gc_cb", [I_NOECHO])
+ *   serve                                one get_user_command(); if it returned a line and an input_to / get_char is
+ *                                        pending: the real call_function_interactive() (single-char mode ends, telnet
+ *                                        option messages, reframe_single_char_input), as process_user_command() does
  *   cb <k> err|dest                      the k-th callback into the user object (0-based, counted over the
  *                                        connection) raises an LPC error / destructs the user object
  *
@@ -71,10 +77,20 @@ static void hex (char *out, const unsigned char *p, size_t n)
   *out = 0;
 }
 
+/* transition probe (`ccprobe`): callbacks are collected here instead of being printed */
+static char *cc_cap = 0;
+static size_t cc_cap_len = 0;
+
 static void out_hex (const char *tag, const unsigned char *p, size_t n)
 {
   char *b = (char *) malloc (n * 2 + 1);
   hex (b, p, n);
+  if (cc_cap && !strncmp (tag, "cb ", 3))
+    {
+      cc_cap_len += sprintf (cc_cap + cc_cap_len, "%s%c:%s", cc_cap_len ? "," : "", tag[3], n ? b : "-");
+      free (b);
+      return;
+    }
   if (n)
     vh_out ("%s %s", tag, b);
   else
@@ -174,7 +190,10 @@ struct svalue_s *c13_apply (const char *fun, struct object_s *ob, int num_arg, i
         }
       if (!strcmp (fun, APPLY_WINDOW_SIZE) && num_arg == 2)
         {
-          vh_out ("cb naws %ld %ld", (long) (sp - 1)->u.number, (long) sp->u.number);
+          if (cc_cap)
+            cc_cap_len += sprintf (cc_cap + cc_cap_len, "%sn:%ld:%ld", cc_cap_len ? "," : "", (long) (sp - 1)->u.number, (long) sp->u.number);
+          else
+            vh_out ("cb naws %ld %ld", (long) (sp - 1)->u.number, (long) sp->u.number);
           pop_n_elems (num_arg);
           cb_done (ob);
           return 0;
@@ -358,6 +377,74 @@ static int do_extract (void)
   return cmd != 0;
 }
 
+
+/* get_char() / input_to() called by the user object (telnet port): the real efun back ends in src/simulate.c, which
+ * call the real set_call() of the included comm.c */
+static void do_setcall (int single, int flags)
+{
+  if (!alive ())
+    return;
+  object_t *scg = command_giver, *sco = current_object;
+  error_context_t econ;
+  svalue_t fun;
+  fun.type = T_STRING;
+  fun.subtype = STRING_CONSTANT;
+  fun.u.string = "gc_cb";
+  save_context (&econ);
+  if (!setjmp (econ.context))
+    {
+      command_giver = c13_ob;
+      current_object = c13_ob;
+      int ok = single ? get_char (&fun, flags, 0, 0) : input_to (&fun, flags, 0, 0);
+      vh_out ("setcall %d", ok);
+      pop_context (&econ);
+    }
+  else
+    {
+      restore_context (&econ);
+      pop_context (&econ);
+      vh_out ("err");
+    }
+  command_giver = scg;
+  current_object = sco;
+  after_step ();
+}
+
+static void do_serve (void)
+{
+  if (!alive ())
+    return;
+  c13_ip->iflags |= HAS_CMD_TURN;
+  char *cmd = get_user_command ();
+  if (cmd)
+    out_hex ("cmd", (unsigned char *) cmd, strlen (cmd));
+  else
+    vh_out ("nocmd");
+  if (cmd && alive () && c13_ip->input_to)
+    {
+      object_t *scg = command_giver, *sco = current_object;
+      error_context_t econ;
+      save_context (&econ);
+      if (!setjmp (econ.context))
+        {
+          command_giver = c13_ob;
+          current_object = 0;
+          eval_cost = CONFIG_INT (__MAX_EVAL_COST__);
+          call_function_interactive (c13_ip, cmd);
+          pop_context (&econ);
+        }
+      else
+        {
+          restore_context (&econ);
+          pop_context (&econ);
+          vh_out ("err");
+        }
+      command_giver = scg;
+      current_object = sco;
+    }
+  after_step ();
+}
+
 static size_t unhex (const char *s, unsigned char **out)
 {
   size_t n = strlen (s) / 2;
@@ -384,6 +471,86 @@ static void do_send (const char *h)
   memcpy (sockq + sockq_len, b, n);
   sockq_len += n;
   free (b);
+}
+
+
+/* ---- transition probe -------------------------------------------------------
+ * `ccprobe <ts> <cr> <single> <sbpos> <fill> <prefix-hex>`: for EVERY byte value 0..255 put the decoder into the
+ * given configuration (ip->state = ts | cr-bit, SINGLE_CHAR, sb_pos, sb_buf = prefix padded with `fill` up to sb_pos,
+ * zero behind, telnet_sb_lm_mode[4] = MODE_ACK) and run the real copy_chars() on that one byte.  One line per byte:
+ *   r <byte> <state'> <sb_pos'> <iflags'> <lm_mode'> <out> <tx> <sb_buf changes i:v,..> <callbacks>
+ * props/c13.py turns the lines into the table NV.Gen.C13.ccTable (state x byte range -> state, actions); the
+ * bridging lemma NV.C13.cc_table_tie compares the model's ccByte with every entry. */
+static void do_ccprobe (const char *args)
+{
+  unsigned ts, cr, single, sbpos, fill;
+  char pre[512] = "", sbp[32] = "";
+  if (sscanf (args, "%u %u %u %31s %u %500s", &ts, &cr, &single, sbp, &fill, pre) < 5)
+    {
+      vh_out ("crash ccprobe-args");
+      return;
+    }
+  /* sb_pos: a number, `S` = SB_SIZE, `S-1` */
+  sbpos = !strcmp (sbp, "S") ? SB_SIZE : !strcmp (sbp, "S-1") ? SB_SIZE - 1 : (unsigned) atoi (sbp);
+  vh_out ("cfg %u %u %u %u %u %s", ts, cr ? 1 : 0, single ? 1 : 0, sbpos, fill, pre[0] ? pre : "-");
+  unsigned char *pb;
+  size_t pn = (pre[0] == '-' || !pre[0]) ? (pb = (unsigned char *) malloc (1), 0) : unhex (pre, &pb);
+  interactive_t *ip = c13_ip;
+  unsigned char before[sizeof (ip->sb_buf)];
+  char cap[1024];
+  for (int b = 0; b < 256; b++)
+    {
+      if (!alive ())
+        {
+          vh_out ("closed");
+          break;
+        }
+      memset (ip->sb_buf, 0, sizeof (ip->sb_buf));
+      for (size_t i = 0; i < sbpos && i < sizeof (ip->sb_buf); i++)
+        ip->sb_buf[i] = i < pn ? pb[i] : (unsigned char) fill;
+      memcpy (before, ip->sb_buf, sizeof before);
+      ip->sb_pos = (int) sbpos;
+      ip->state = (int) (ts | (cr ? TS_CR_SEEN : 0));
+      ip->iflags = single ? SINGLE_CHAR : 0;
+      telnet_sb_lm_mode[4] = MODE_ACK;
+      ip->text_start = ip->text_end = 0;
+      ip->text[0] = 0;
+      tx_len = 0;
+      cap[0] = 0;
+      cc_cap = cap;
+      cc_cap_len = 0;
+      /* exact-size heap buffers: one input byte, at most three stored bytes */
+      unsigned char *from = (unsigned char *) malloc (1), *to = (unsigned char *) malloc (3);
+      from[0] = (unsigned char) b;
+      size_t n = copy_chars (from, to, 1, ip);
+      cc_cap = 0;
+      if (n == (size_t) -1 || !alive ())
+        {
+          vh_out ("r %d dead", b);
+          free (from);
+          free (to);
+          break;
+        }
+      flush_message (ip);
+      char oh[16], *th = (char *) malloc (tx_len * 2 + 2), dh[sizeof (ip->sb_buf) * 10 + 8];
+      hex (oh, to, n <= 3 ? n : 3);
+      hex (th, txbuf, tx_len);
+      size_t dl = 0;
+      dh[0] = 0;
+      for (size_t i = 0; i < sizeof (ip->sb_buf); i++)
+        if (ip->sb_buf[i] != before[i])
+          dl += sprintf (dh + dl, "%s%lu:%u", dl ? "," : "", (unsigned long) i, (unsigned) ip->sb_buf[i]);
+      vh_out ("r %d %d %d %d %d %s %s %s %s", b, ip->state, ip->sb_pos,
+              ip->iflags & (CMD_IN_BUF | USING_TELNET | USING_LINEMODE | SINGLE_CHAR), (int) (unsigned char) telnet_sb_lm_mode[4],
+              n ? oh : "-", tx_len ? th : "-", dl ? dh : "-", cap[0] ? cap : "-");
+      if (n > 3)
+        vh_out ("crash ccprobe: one input byte stored %lu bytes", (unsigned long) n);
+      tx_len = 0;
+      free (th);
+      free (from);
+      free (to);
+    }
+  free (pb);
 }
 
 static int c13_cmd (char *line)
@@ -415,8 +582,25 @@ static int c13_cmd (char *line)
       return 1;
     }
   if (!alive ())		/* connection closed earlier: nothing is executed any more */
-    return !strcmp (line, "iflag single") || !strcmp (line, "iflag line") || !strcmp (line, "read") || !strncmp (line, "chunk ", 6)
+    return !strncmp (line, "getchar", 7) || !strncmp (line, "inputto", 7) || !strcmp (line, "serve") || !strcmp (line, "iflag single") || !strcmp (line, "iflag line") || !strcmp (line, "read") || !strncmp (line, "chunk ", 6)
       || !strcmp (line, "extract") || !strcmp (line, "drain") || !strcmp (line, "finish") || !strncmp (line, "line ", 5);
+  if (!strncmp (line, "ccprobe ", 8))
+    {
+      do_ccprobe (line + 8);
+      return 1;
+    }
+  if (!strncmp (line, "getchar", 7) || !strncmp (line, "inputto", 7))
+    {
+      if (port_kind != PORT_TELNET)
+        return 0;
+      do_setcall (line[0] == 'g', strstr (line, "noecho") ? I_NOECHO : 0);
+      return 1;
+    }
+  if (!strcmp (line, "serve"))
+    {
+      do_serve ();
+      return 1;
+    }
   if (!strcmp (line, "iflag single"))
     {
       if (alive ())
